@@ -844,7 +844,8 @@ impl Cursor<'_> {
             match c {
                 '"' => {
                     terminated = true;
-                    if count_newlines > 0 {
+                    // A bit string has at least one bit; an empty pair of quotes is a string.
+                    if count_newlines > 0 || prev_char == '\0' {
                         only_ones_and_zeros = false;
                     }
                     return (terminated, only_ones_and_zeros, consecutive_underscores);
@@ -892,7 +893,8 @@ impl Cursor<'_> {
             match c {
                 '\'' => {
                     terminated = true;
-                    if count_newlines > 0 {
+                    // A bit string has at least one bit; an empty pair of quotes is a string.
+                    if count_newlines > 0 || prev_char == '\0' {
                         only_ones_and_zeros = false;
                     }
                     return (terminated, only_ones_and_zeros, consecutive_underscores);
